@@ -504,6 +504,17 @@ def _validators_written_once(p: Program, rep: Report) -> None:
         rep.ok("R14.6", f"ETag / Last-Modified are written by generate_common_headers only: no other function of the package ({n_scanned} scanned) pops, deletes or stores them")
     rep.require_instances("R14.6", 1)
 
+    # the ASGI apps read If-None-Match AND If-Modified-Since whatever their order in scope["headers"]
+    from .hdr_common import multi_header_scan_breaks as _mhsb
+    for cn_ in ("Files", "Pages"):
+        ac_ = p.cls(f"baize.asgi.staticfiles:{cn_}").methods.get("__call__")
+        if ac_ is None:
+            continue
+        for f_ in with_helpers(p, ac_):
+            for lp_, leave_, names_ in _mhsb(f_):
+                rep.violation("R14.1", construct(f_, text=f"header scan for {names_} left early"), where(f_, leave_),
+                              f"asgi {cn_}: the scan of scope['headers'] for {names_} is left by `{ast.unparse(leave_)}` as soon as one validator was seen: the other one, sent after it, is never read", positive=True)
+
     # ---------------------------------------------------------------- R14.7 validators are computed afresh for every request
     # A 304 is only right if the tag / time compared is that of the file as it is NOW. Nothing on the way from os.stat() to the
     # comparison and to the emitted headers may be remembered across requests: no functools cache on a function of the file
